@@ -7,7 +7,7 @@ use triomphe::Arc;
 
 fn main() {
     let mut t = Tally::new();
-    for r in 0..rounds(3) {
+    for r in 0..rounds(4) {
         let tag = 60 + r as u64;
         let a = Arc::new(Payload::new(tag));
         t.shared(3);
